@@ -28,13 +28,13 @@ def canon(e, depth=0):
     if k == "downcast":
         return f"{canon(e[1], depth+1)}@{e[2]}"
     if k == "var":
-        return f"var{e[1]}"
+        return f"var:{e[2]}" if e[2] else f"var{e[1]}"
     if k == "agg":
         return f"{str(e[1]).split('::')[-1]}::{e[2]}({','.join(canon(a, depth+1) for a in e[3])})"
     if k == "discr":
         return f"discr({canon(e[1], depth+1)})"
     if k == "place":
-        return f"place{e[1]}"
+        return f"place:{e[2] or e[3]}"
     return str(e)[:80]
 
 
@@ -85,7 +85,8 @@ def path_return_value(ctx, edges):
                 val = ctx.prov.rvalue(s["rv"], (b, i))
         t = blk["term"]
         if t["k"] == "call" and t["dst"]["l"] == 0 and not t["dst"].get("p"):
-            val = ("call", t.get("resolved") or t.get("callee"), tuple(ctx.args(b)), b)
+            from .prov import call_name
+            val = ("call", call_name(t), tuple(ctx.args(b)), b)
     return val
 
 
